@@ -55,6 +55,7 @@ type Exec struct {
 	nfresh   int
 	depth    int
 	loopOrd  map[ast.Stmt]int
+	loopSeen map[int]bool
 	con      *Contract
 	caseName string
 	contract bool // evaluating a contract expression
